@@ -137,6 +137,11 @@ func evalC09(c *engine.Case) engine.Verdict {
 		}
 	}
 	redefWalkedConv, callAfter, onceUsedAfterRedefine := false, false, false
+	// diverged: a step called the redefined function and the twin could not
+	// mirror that call exactly (its own planning picked another equal-cost
+	// input set); from then on memoization state may legitimately differ and
+	// twin comparisons are off (the Redefine-side invariants stay on).
+	diverged := false
 	sawRedefine := false
 	for si, st := range x.Steps {
 		switch st.Op {
@@ -216,11 +221,17 @@ func evalC09(c *engine.Case) engine.Verdict {
 					if st.HasF {
 						targs = append(targs, argmapper.FilterInput(typeFilter(st.Filter)))
 					}
-					if trf, terr := tTwin.Redefine(targs...); terr == nil {
+					trf, terr := tTwin.Redefine(targs...)
+					if terr != nil || fmt.Sprint(rf.Input().Values()) != fmt.Sprint(trf.Input().Values()) {
+						diverged = true
+					} else {
 						ot := twin.Call(trf, callArgs)
-						if well && !hasFailing(sc) && outcomeClass(or) != outcomeClass(ot) && fmt.Sprint(rf.Input().Values()) == fmt.Sprint(trf.Input().Values()) {
+						if well && !diverged && !hasFailing(sc) && outcomeClass(or) != outcomeClass(ot) {
 							v.Failf("step %d: redefined call outcome %s, twin %s", si, outcomeClass(or), outcomeClass(ot))
 							return v
+						}
+						if executedSet(or.Events) != executedSet(ot.Events) {
+							diverged = true
 						}
 					}
 				}
@@ -256,12 +267,14 @@ func evalC09(c *engine.Case) engine.Verdict {
 					uniqueHere = false
 				}
 			}
-			if well && !hasFailing(sc) {
+			if well && !diverged && !hasFailing(sc) {
 				if a, b := outcomeClass(or), outcomeClass(ot); a != b {
 					v.Failf("step %d (%s): outcome %s in the world that saw Redefine, %s in the twin that did not", si, st.Op, a, b)
 					return v
 				}
-				if uniqueHere {
+				// what ran before a failure was detected depends on map order:
+				// executed sets are comparable for successful operations only
+				if uniqueHere && or.Err == nil && ot.Err == nil {
 					if a, b := executedSet(or.Events), executedSet(ot.Events); a != b {
 						v.Failf("step %d (%s): functions executed %s, twin %s", si, st.Op, a, b)
 						return v
@@ -276,6 +289,13 @@ func evalC09(c *engine.Case) engine.Verdict {
 				v.Failf("step %d: %s", si, msg)
 				return v
 			}
+			if !uniqueHere || or.Err != nil || ot.Err != nil {
+				// the two worlds may have executed (and memoized) different
+				// run-once converters from here on
+				if executedSet(or.Events) != executedSet(ot.Events) {
+					diverged = true
+				}
+			}
 		}
 		// run-once converters: never more than one execution; equal to the twin's
 		for _, id := range onceIDs {
@@ -283,7 +303,7 @@ func evalC09(c *engine.Case) engine.Verdict {
 				v.Failf("step %d: run-once converter f%d executed %d times", si, id, real.Execs[id])
 				return v
 			}
-			if well && unique && !hasFailing(sc) && real.Execs[id] != twin.Execs[id] {
+			if well && unique && !diverged && !hasFailing(sc) && real.Execs[id] != twin.Execs[id] {
 				v.Failf("step %d: run-once converter f%d executed %d time(s), in the twin without Redefine %d", si, id, real.Execs[id], twin.Execs[id])
 				return v
 			}
@@ -300,6 +320,9 @@ func evalC09(c *engine.Case) engine.Verdict {
 	}
 	if well {
 		v.Class("well-behaved")
+	}
+	if diverged {
+		v.Class("twin-diverged-after-redefined-call")
 	}
 	v.NonTrivial = redefWalkedConv && callAfter
 	return v
